@@ -263,14 +263,13 @@ func (a tagAtom) match(tags map[string]string) bool {
 
 // mQuery is a generated query.
 type mQuery struct {
-	Metric   string
-	Items    []selectItem
-	Cond     []tagAtom // conjunction
-	Start    int64     // ms, as written in the statement (second precision)
-	End      int64
-	UserIv   int64 // group by time(x) in ms, 0 = none
-	GroupBy  []string
-	TimeForm string
+	Metric  string
+	Items   []selectItem
+	Cond    []tagAtom // conjunction
+	Start   int64     // ms, as written in the statement (second precision)
+	End     int64
+	UserIv  int64 // group by time(x) in ms, 0 = none
+	GroupBy []string
 }
 
 func fmtTime(ms int64) string {
@@ -524,11 +523,6 @@ func combine(fAgg string, sets [][]float64) (vals []float64, ambiguous bool) {
 
 // expectation: group key -> result field -> timestamp -> acceptable values.
 type expectation map[string]map[string]map[int64]valueSet
-
-// placement counts where the contributing points of a query live.
-type contribution struct {
-	Points []mPoint
-}
 
 func groupKeyOf(groupBy []string, tags map[string]string) (string, bool) {
 	if len(groupBy) == 0 {
